@@ -185,8 +185,48 @@ def run(m):
 '''
 
 
+@structural("C22", "only-resolved-paths-are-read")
+def only_resolved_paths_are_read():
+    """file-system loaders (sync and async): the only path handed to `_read` is the value of
+    `resolve_path(<the requested name>)` (the function under contract: containment and symlink
+    rejection), directly or through run_in_executor; files are opened nowhere else"""
+    import ast
+    from pyvc import flow, load
+    obs = []
+    mod = load.get_module("liquid.builtin.loaders.file_system_loader")
+    n = 0
+    for cname, cnode in mod.classes.items():
+        for fn in [f for f in cnode.body if isinstance(f, (ast.FunctionDef, ast.AsyncFunctionDef))]:
+            def unwrap(e):
+                return e.value if isinstance(e, ast.Await) else e
+
+            def is_resolve(e):
+                e = unwrap(e)
+                if not isinstance(e, ast.Call):
+                    return False
+                if flow.dotted(e.func) == "self.resolve_path" and len(e.args) == 1:
+                    return True
+                return flow.dotted(e.func).endswith("run_in_executor") and len(e.args) == 3 and flow.dotted(e.args[1]) == "self.resolve_path"
+            resolved = {t.id for st_ in ast.walk(fn) if isinstance(st_, ast.Assign) and is_resolve(st_.value) for t in st_.targets if isinstance(t, ast.Name)}
+            other = {t.id for st_ in ast.walk(fn) if isinstance(st_, ast.Assign) and not is_resolve(st_.value) for t in st_.targets if isinstance(t, ast.Name)}
+            for call in flow.calls(fn):
+                d = flow.dotted(call.func)
+                arg = None
+                if d == "self._read" and call.args:
+                    arg = call.args[0]
+                elif d.endswith("run_in_executor") and len(call.args) >= 3 and flow.dotted(call.args[1]) == "self._read":
+                    arg = call.args[2]
+                if arg is not None:
+                    n += 1
+                    ok = isinstance(arg, ast.Name) and arg.id in resolved and arg.id not in other
+                    obs.append(flow.ob(f"{cname}.{fn.name}@{call.lineno - fn.lineno}:reads-only-what-resolve_path-returned", ok, ast.unparse(call)[:80], replay_schema="code", replay_extra={"code": REPLAY}))
+                if fn.name != "_read" and (d.endswith(".open") or d.endswith(".read_text") or d.endswith(".read_bytes") or d == "open"):
+                    obs.append(flow.ob(f"{cname}.{fn.name}@{call.lineno - fn.lineno}:files-are-opened-in-_read-only", False, ast.unparse(call)[:80], replay_schema="code", replay_extra={"code": REPLAY}))
+    obs.append(flow.ob("read-sites-found", n >= 2, f"{n} _read call sites"))
+    return obs
+
+
 not_covered("C22", "the file system itself (symlink resolution is opaque; races between exists() and open())", "more than two search paths (the loop is uniform)",
-            "FileSystemLoader._read/get_source read exactly resolve_path(name) (structural: the only path they open is the one returned by resolve_path)",
             "reading an existing but unreadable / mis-encoded file (excluded by precondition)")
 
 bounded("C22", "bounded/C22.py")
